@@ -123,6 +123,8 @@ pub struct Branch {
     mmr_size: u64,
     pub live: Vec<LiveCell>,
     rng: Rng,
+    /// a forged block was mined on this branch: no honest difficulty adjustment after it
+    pub forged: bool,
 }
 
 pub struct World {
@@ -141,6 +143,12 @@ pub struct World {
     /// epoch number -> (length, compact target): one difficulty schedule for all branches
     /// (competing branches with different difficulty in the same epoch are not explored)
     pub epoch_plan: HashMap<u64, (u64, u32)>,
+    /// (kind, salt): the next mined block carries a forged epoch / compact target (an attacker's
+    /// block: self-consistent hash, chain root and PoW, inconsistent difficulty fields)
+    pub forge_next: Option<(u8, u64)>,
+    /// (branch, kind, salt): the first block of the next epoch on that branch declares a forged
+    /// epoch length (the MMR merge fixes the length only within an epoch)
+    pub forge_epoch: Option<(usize, u8, u64)>,
 }
 
 struct TxProvider<'a>(&'a HashMap<Byte32, TransactionView>);
@@ -325,6 +333,7 @@ impl World {
             mmr_size,
             live,
             rng: rng.fork(0xb0),
+            forged: false,
         };
         World {
             params,
@@ -338,6 +347,8 @@ impl World {
             tx_locs,
             always_success_dep,
             epoch_plan: HashMap::new(),
+            forge_next: None,
+            forge_epoch: None,
         }
     }
 
@@ -477,6 +488,7 @@ impl World {
             mmr_size: size,
             live,
             rng,
+            forged: false,
         });
         self.branches.len() - 1
     }
@@ -493,7 +505,21 @@ impl World {
 
         // --- epoch & difficulty
         let pe = parent_header.epoch();
-        let (epoch, compact) = if number == 1 {
+        let (epoch, compact) = if self.branches[branch].forged {
+            // after a forged block: no honest adjustment, just count on
+            // exactly what EpochNumberWithFraction::is_successor_of accepts
+            if pe.index() + 1 == pe.length() {
+                (
+                    EpochNumberWithFraction::new_unchecked(pe.number() + 1, 0, pe.length()),
+                    parent_header.compact_target(),
+                )
+            } else {
+                (
+                    EpochNumberWithFraction::new_unchecked(pe.number(), pe.index() + 1, pe.length()),
+                    parent_header.compact_target(),
+                )
+            }
+        } else if number == 1 {
             let len = match self.epoch_plan.get(&0) {
                 Some((l, _)) => *l,
                 None => {
@@ -701,14 +727,75 @@ impl World {
         let block = BlockBuilder::default()
             .parent_hash(parent_header.hash())
             .number(number.pack())
-            .epoch(epoch.pack())
+            .epoch(
+                if epoch.is_well_formed() {
+                    epoch.pack()
+                } else {
+                    // the builder insists on a well-formed epoch; the real one is patched in below
+                    EpochNumberWithFraction::new_unchecked(epoch.number(), 0, 1).pack()
+                },
+            )
             .compact_target(compact.pack())
             .timestamp(timestamp.pack())
             .dao(Byte32::new(dao))
             .transactions(block_txs.clone())
             .extension(Some(ext))
             .build();
-        let block = mine(params.pow, block);
+        let mut block = mine(params.pow, block);
+        if !epoch.is_well_formed() {
+            let data = block.data();
+            let raw = data.header().raw().as_builder().epoch(epoch.pack()).build();
+            let header = data.header().as_builder().raw(raw).build();
+            block = data.as_builder().header(header).build().into_view();
+        }
+        let mut compact = compact;
+        if let Some((fb, kind, salt)) = self.forge_epoch {
+            if fb == branch && epoch.index() == 0 && number > 1 && !self.branches[branch].forged {
+                self.forge_epoch = None;
+                self.branches[branch].forged = true;
+                let mut fr = Rng::new(crate::entropy::mix(&[salt, number, 0xf1]));
+                let el: u64 = match kind % 4 {
+                    0 => 0,
+                    1 => 1,
+                    2 => 0xffff,
+                    _ => fr.range(1, 3),
+                };
+                let raw_epoch: u64 = ((el & 0xffff) << 40) | (epoch.number() & 0xff_ffff);
+                let data = block.data();
+                let raw = data.header().raw().as_builder().epoch(raw_epoch.pack()).build();
+                let header = data.header().as_builder().raw(raw).build();
+                block = data.as_builder().header(header).build().into_view();
+            }
+        }
+        if let Some((kind, salt)) = self.forge_next.take() {
+            self.branches[branch].forged = true;
+            let mut fr = Rng::new(crate::entropy::mix(&[salt, number, 0xf0]));
+            let (mut en, mut ei, mut el) = (epoch.number(), epoch.index(), epoch.length());
+            // only what the MMR merge of header digests lets through (it checks that block
+            // numbers and (epoch number, index) are consecutive, nothing else)
+            match kind % 3 {
+                0 => {
+                    // another compact target in the middle of an epoch
+                    let d = compact_to_difficulty(compact);
+                    compact = difficulty_to_compact(if fr.chance(1, 2) { d * 64u64 } else { d / 64u64 + 1u64 });
+                }
+                1 => compact = difficulty_to_compact(U256::one() << (120 + fr.below(100)) as u8),
+                _ => compact = *fr.pick(&[1u32, 0x0100_0001, 0x2100_ffff, 0xff00_0001]),
+            }
+            let _ = (&mut en, &mut ei, &mut el);
+            // full value: length (16 bits) | index (16 bits) | number (24 bits)
+            let raw_epoch: u64 = ((el & 0xffff) << 40) | ((ei & 0xffff) << 24) | (en & 0xff_ffff);
+            let data = block.data();
+            let raw = data
+                .header()
+                .raw()
+                .as_builder()
+                .epoch(raw_epoch.pack())
+                .compact_target(compact.pack())
+                .build();
+            let header = data.header().as_builder().raw(raw).build();
+            block = data.as_builder().header(header).build().into_view();
+        }
 
         // --- commit to the world
         for (ti, tx) in block_txs.iter().enumerate() {
@@ -722,7 +809,9 @@ impl World {
         assert!(missing.is_empty(), "generated block misses an input cell");
         let filter: packed::Bytes = filter.pack();
         let filter_hash: Byte32 = calc_filter_hash(&parent_filter_hash, &filter).pack();
-        let td = parent_td + compact_to_difficulty(compact);
+        let td = parent_td
+            .checked_add(&compact_to_difficulty(compact))
+            .unwrap_or_else(|| U256::max_value());
 
         let id = self.blocks.len();
         self.by_hash.insert(block.hash(), id);
